@@ -314,6 +314,7 @@ static void run_threads(int yield, int rounds, int steps) {
 /* ---------------------------------------------------------------- write trap */
 static uintptr_t seg_lo, seg_hi;
 static char libpath[512];
+static uintptr_t lib_base;
 static int phdr_cb(struct dl_phdr_info *info, size_t sz, void *d) {
     (void)sz;
     (void)d;
@@ -322,6 +323,7 @@ static int phdr_cb(struct dl_phdr_info *info, size_t sz, void *d) {
     for (int i = 0; i < info->dlpi_phnum; i++) {
         const ElfW(Phdr) *p = &info->dlpi_phdr[i];
         if (p->p_type == PT_LOAD && (p->p_flags & PF_W)) {
+            lib_base = info->dlpi_addr;
             seg_lo = info->dlpi_addr + p->p_vaddr;
             seg_hi = seg_lo + p->p_memsz;
         }
@@ -337,9 +339,9 @@ static void on_segv(int s, siginfo_t *si, void *u) {
     const char *sym = "?";
     if (a >= seg_lo && a < seg_hi && dladdr(si->si_addr, &di) && di.dli_sname) sym = di.dli_sname;
     int n = snprintf(buf, sizeof buf,
-                     "{\"t\":\"viol\",\"property\":\"C18\",\"kind\":\"%s\",\"fn\":\"%s\",\"key\":\"%016" PRIx64 "\",\"sigs\":\"\",\"replay\":\"%.200s\",\"detail\":\"store to address %p %s the library's writable segment [%#lx,%#lx) (offset %#lx, nearest symbol %s) while the segment was write-protected: the library writes to its own static memory\"}\n",
+                     "{\"t\":\"viol\",\"property\":\"C18\",\"kind\":\"%s\",\"fn\":\"%s\",\"key\":\"%016" PRIx64 "\",\"sigs\":\"\",\"replay\":\"%.200s\",\"detail\":\"store to address %p %s the library's writable segment [%#lx,%#lx) (offset %#lx, vaddr %#lx in the shared object, nearest dynamic symbol %s) while the segment was write-protected: the library writes to its own static memory\"}\n",
                      (a >= seg_lo && a < seg_hi) ? "static-write" : "segv", sym, vf_mix(a - seg_lo), vf_case_get(), si->si_addr, (a >= seg_lo && a < seg_hi) ? "inside" : "outside", (unsigned long)seg_lo,
-                     (unsigned long)seg_hi, (unsigned long)(a - seg_lo), sym);
+                     (unsigned long)seg_hi, (unsigned long)(a - seg_lo), (unsigned long)(a - lib_base), sym);
     if (VF.log) {
         fflush(VF.log);
         if (write(fileno(VF.log), buf, (size_t)n) < 0) _exit(4);
